@@ -749,6 +749,135 @@ Section Raw.
   Proof. intros Hwf H. unfold raw_build. rewrite decode_encode. now apply builders_agree. Qed.
 End Raw.
 
+(* ------------------------------------------------------------------ validity of full names *)
+Lemma split_dots_nonempty s : split_dots s <> [].
+Proof.
+  induction s as [|c r IH]; cbn; [discriminate|].
+  destruct (is_dot c); [discriminate|]. destruct (split_dots r); discriminate.
+Qed.
+
+Lemma split_dots_app p n : split_dots (p ++ c_dot :: n) = split_dots p ++ split_dots n.
+Proof.
+  induction p as [|c p IH].
+  - cbn [app split_dots]. unfold is_dot at 1. rewrite beq_byte_refl. reflexivity.
+  - cbn [app split_dots]. destruct (is_dot c); [now rewrite IH|].
+    rewrite IH. pose proof (split_dots_nonempty p) as Hne.
+    destruct (split_dots p) as [|h t]; [congruence|reflexivity].
+Qed.
+
+Lemma split_dots_no_dot n : no_dot n = true -> split_dots n = [n].
+Proof.
+  induction n as [|c r IH]; cbn; [reflexivity|].
+  intros H. apply andb_prop in H as [H1 H2]. destruct (is_dot c); [discriminate|].
+  now rewrite (IH H2).
+Qed.
+
+Definition scope_ok (s : bytes) : Prop := s = [] \/ fullname_ok s = true.
+
+Lemma fullname_ok_append p n : scope_ok p -> ident_ok n = true -> fullname_ok (fn_append p n) = true.
+Proof.
+  intros Hp Hn. pose proof (split_dots_no_dot n (ident_no_dot n Hn)) as En.
+  unfold fullname_ok, fn_append. destruct p as [|c p].
+  - rewrite En. cbn. now rewrite Hn.
+  - destruct Hp as [Hp|Hp]; [discriminate|].
+    rewrite split_dots_app, forallb_app, En. unfold fullname_ok in Hp. rewrite Hp. cbn. now rewrite Hn.
+Qed.
+
+Lemma fullname_ok_join p r : scope_ok p -> fullname_ok r = true -> fullname_ok (fn_append p r) = true.
+Proof.
+  intros Hp Hr. unfold fn_append. destruct p as [|c p]; [exact Hr|].
+  destruct Hp as [Hp|Hp]; [discriminate|].
+  unfold fullname_ok in *. now rewrite split_dots_app, forallb_app, Hp, Hr.
+Qed.
+
+Lemma split_last_split_dots s : forall a b, split_last s = Some (a, b) -> split_dots s = split_dots a ++ split_dots b.
+Proof.
+  induction s as [|c r IH]; cbn [split_last]; [discriminate|].
+  intros a b. destruct (split_last r) as [[a' b']|] eqn:E.
+  - intros H; inversion H; subst. cbn [split_dots]. rewrite (IH a' b eq_refl).
+    destruct (is_dot c); [reflexivity|].
+    pose proof (split_dots_nonempty a') as Hne. destruct (split_dots a'); [congruence|reflexivity].
+  - destruct (is_dot c) eqn:Ec; [|discriminate]. intros H; inversion H; subst.
+    cbn [split_dots]. rewrite Ec. reflexivity.
+Qed.
+
+Lemma scope_ok_parent s : scope_ok s -> scope_ok (fn_parent s).
+Proof.
+  intros [Hs|Hs]; [subst; left; reflexivity|].
+  unfold fn_parent. destruct (split_last s) as [[a b]|] eqn:E; [|left; reflexivity].
+  right. unfold fullname_ok in *. rewrite (split_last_split_dots s a b E), forallb_app in Hs.
+  now apply andb_prop in Hs as [Ha _].
+Qed.
+
+Definition vald (d : Decl) : Prop := fullname_ok (d_full d) = true.
+
+Lemma decls_enum_valid scope e : scope_ok scope -> Forall okd (decls_enum scope e) -> Forall vald (decls_enum scope e).
+Proof.
+  intros Hs HF. unfold decls_enum in *. inversion HF as [|? ? Hn Hv]; subst. unfold okd in Hn. cbn [d_name decl] in Hn.
+  constructor; [unfold vald; cbn [d_full decl]; now apply fullname_ok_append|].
+  rewrite (fn_parent_append scope (e_name e) Hn) in *.
+  apply Forall_map_inv in Hv. apply Forall_forall. intros d Hd. apply in_map_iff in Hd as (v & <- & Hin).
+  rewrite Forall_forall in Hv. specialize (Hv v Hin). unfold okd in Hv. cbn [d_name decl] in Hv.
+  unfold vald. cbn [d_full decl]. now apply fullname_ok_append.
+Qed.
+
+Lemma Forall_flat_map_intro {A B} (P : B -> Prop) (f : A -> list B) (l : list A) :
+  Forall (fun a => Forall P (f a)) l -> Forall P (flat_map f l).
+Proof. induction l; cbn; intros H; [constructor|]. inversion H; subst. apply Forall_app; auto. Qed.
+
+Lemma names_valid scope (names : list bytes) k :
+  scope_ok scope -> Forall (fun n => ident_ok n = true) names ->
+  Forall vald (map (fun n => decl scope n k false) names).
+Proof.
+  intros Hs HF. apply Forall_forall. intros d Hd. apply in_map_iff in Hd as (n & <- & Hin).
+  rewrite Forall_forall in HF. unfold vald. cbn [d_full decl]. apply fullname_ok_append; auto.
+Qed.
+
+Lemma decls_msg_valid : forall m scope, scope_ok scope -> Forall okd (decls_msg scope m) -> Forall vald (decls_msg scope m).
+Proof.
+  induction m as [name fields exts nested enums xr oneofs rr rn opts vis IH] using MsgP_ind2.
+  intros scope Hs HF. cbn [decls_msg] in *. inversion HF as [|? ? Hn HF1]; subst. unfold okd in Hn. cbn [d_name decl] in Hn.
+  apply Forall_app in HF1 as [Hfields HF2]. apply Forall_app in HF2 as [Honeofs HF3].
+  apply Forall_app in HF3 as [Henums HF4]. apply Forall_app in HF4 as [Hnested Hexts].
+  assert (Hfull : scope_ok (fn_append scope name)) by (right; now apply fullname_ok_append).
+  constructor; [unfold vald; cbn [d_full decl]; now apply fullname_ok_append|].
+  apply Forall_app; split; [|apply Forall_app; split; [|apply Forall_app; split; [|apply Forall_app; split]]].
+  - apply Forall_forall. intros d Hd. apply in_map_iff in Hd as (f & <- & Hin).
+    rewrite Forall_forall in Hfields. specialize (Hfields _ (in_map _ _ _ Hin)). unfold okd in Hfields. cbn [d_name decl] in Hfields.
+    unfold vald. cbn [d_full decl]. now apply fullname_ok_append.
+  - apply Forall_forall. intros d Hd. apply in_map_iff in Hd as (f & <- & Hin).
+    rewrite Forall_forall in Honeofs. specialize (Honeofs _ (in_map _ _ _ Hin)). unfold okd in Honeofs. cbn [d_name decl] in Honeofs.
+    unfold vald. cbn [d_full decl]. now apply fullname_ok_append.
+  - apply Forall_flat_map_intro. apply Forall_flat_map in Henums.
+    eapply Forall_impl; [|exact Henums]. intros e He. now apply decls_enum_valid.
+  - apply Forall_flat_map_intro. apply Forall_flat_map in Hnested.
+    apply Forall_forall. intros x Hx. rewrite Forall_forall in IH, Hnested. apply IH; auto.
+  - apply Forall_forall. intros d Hd. apply in_map_iff in Hd as (f & <- & Hin).
+    rewrite Forall_forall in Hexts. specialize (Hexts _ (in_map _ _ _ Hin)). unfold okd in Hexts. cbn [d_name decl] in Hexts.
+    unfold vald. cbn [d_full decl]. now apply fullname_ok_append.
+Qed.
+
+Lemma decls_file_valid p : scope_ok (pkg_of p) -> Forall okd (decls_file p) -> Forall vald (decls_file p).
+Proof.
+  intros Hs HF. unfold decls_file in *.
+  apply Forall_app in HF as [Henums HF]. apply Forall_app in HF as [Hmsgs HF]. apply Forall_app in HF as [Hexts Hsvcs].
+  apply Forall_app; split; [|apply Forall_app; split; [|apply Forall_app; split]].
+  - apply Forall_flat_map_intro. apply Forall_flat_map in Henums.
+    eapply Forall_impl; [|exact Henums]. intros e He. now apply decls_enum_valid.
+  - apply Forall_flat_map_intro. apply Forall_flat_map in Hmsgs.
+    eapply Forall_impl; [|exact Hmsgs]. intros m Hm. now apply decls_msg_valid.
+  - apply Forall_forall. intros d Hd. apply in_map_iff in Hd as (f & <- & Hin).
+    rewrite Forall_forall in Hexts. specialize (Hexts _ (in_map _ _ _ Hin)). unfold okd in Hexts. cbn [d_name decl] in Hexts.
+    unfold vald. cbn [d_full decl]. now apply fullname_ok_append.
+  - apply Forall_flat_map_intro. apply Forall_flat_map in Hsvcs.
+    eapply Forall_impl; [|exact Hsvcs]. intros s Hsv. cbn beta in *.
+    inversion Hsv as [|? ? Hn Hms]; subst. unfold okd in Hn. cbn [d_name decl] in Hn.
+    constructor; [unfold vald; cbn [d_full decl]; now apply fullname_ok_append|].
+    apply Forall_forall. intros d Hd. apply in_map_iff in Hd as (m & <- & Hin).
+    rewrite Forall_forall in Hms. specialize (Hms _ (in_map _ _ _ Hin)). unfold okd in Hms. cbn [d_name decl] in Hms.
+    unfold vald. cbn [d_full decl]. apply fullname_ok_append; [right; now apply fullname_ok_append|exact Hms].
+Qed.
+
 (* ------------------------------------------------------------------ concrete witnesses *)
 From Coq Require Import String.
 Local Open Scope string_scope.
@@ -777,9 +906,10 @@ Lemma ex_file_accepted : is_ok (new_file idc [] ex_file) = true.
 Proof. vm_compute. reflexivity. Qed.
 
 (* the relative name M inside a.M resolves to the nested a.M.M *)
+Definition ex_abs_name : bytes := bs ".a.M.M".
 Lemma ex_file_normal_form :
   match normalize idc [] ex_file with
-  | mkFileP _ _ _ _ _ _ [mkMsgP _ (f :: _) _ _ _ _ _ _ _ _ _] _ _ _ _ => f_type_name f = Some (bs ".a.M.M")
+  | mkFileP _ _ _ _ _ _ [mkMsgP _ (f :: _) _ _ _ _ _ _ _ _ _] _ _ _ _ => f_type_name f = Some ex_abs_name
   | _ => False
   end.
 Proof. vm_compute. reflexivity. Qed.
